@@ -550,8 +550,13 @@ class Concatenator(Group):  # pylint: disable=too-many-public-methods
 
         :param field: Name of the attribute
         """
-        field = INV_KEY_MAP.get(field, field)
-        alias = KEY_MAP.get(field, field)
+        attribute = INV_KEY_MAP.get(field, field)
+        if attribute in PROPERTY_KWARGS or attribute == "property_groups":
+            field = attribute
+            alias = KEY_MAP.get(field, field)
+        else:  # The name of a data: kept as given, whatever it spells
+            alias = field
+
         self.workspace.update_attribute(self, "index", alias)
 
         if field in PROPERTY_KWARGS:  # For group property
